@@ -31,7 +31,7 @@ CHECKS = {
    text="2-4 simulated threads grow/query/touch/fill/copy/wait on one shared memory, on the little-endian build and on the forced big-endian build (every atomic path goes through the memory mutex there); each history must be linearizable w.r.t. a bounded page counter (distinct old sizes, failed grows change nothing, final size = initial + successful deltas <= max), touched bytes of observed pages must hold, and a FastTrack-style happens-before detector fed by the instrumentation callbacks must see no unordered conflicting accesses to data/size/pages/maxPages.",
    note="sequentially consistent interleavings; race detector only sees instrumented code (generated C, w2c2_base.h inlines, futex)", ref="5/C18"),
  "C19": dict(engine="simrt", cat="exploration", tech="deterministic simulation on the forced big-endian build: seeded load/store/bulk/atomic histories against the byte-reversed reference model, atomic histories also under seeded schedules",
-   text="The E1 workloads of C05, C16 and C17 (wait/notify, judged by the futex rules) run on a build with WASM_ENDIAN forced to big-endian (bswap builtins and the header's portable swap macros), and the WASI-host workloads of C12-C15 run on a build where module, wasi.c and the harness' guest-memory accessors are the byte-reversing ones; the model stores every 16/32/64-bit access byte-reversed and 8-bit/bulk accesses unreversed, so a wrong-width, doubled or missing swap changes bytes or results. Runtime half of the property only.",
+   text="The E1 workloads of C05, C16 and C17 (wait/notify, judged by the futex rules) run on builds with WASM_ENDIAN forced to big-endian (bswap builtins; the header's portable swap macros; no threads implementation, with a module that has atomic loads/stores only), and the WASI-host workloads of C12-C15 run on a build where module, wasi.c and the harness' guest-memory accessors are the byte-reversing ones; the model stores every 16/32/64-bit access byte-reversed and 8-bit/bulk accesses unreversed, so a wrong-width, doubled or missing swap changes bytes or results. Runtime half of the property only.",
    note="a little-endian host with WASM_ENDIAN forced to big. The 'translator itself on a big-endian host' clause (buffer.h) has no schedule or fault in it; it is only touched by an auxiliary, schedule-free sample: the translator built with the big-endian reader must produce, for a module, the output the plain translator produces for the same module with byte-reversed f32/f64 immediates", ref="5/C19"),
 }
 
@@ -41,13 +41,13 @@ CHECKS["C06"] = dict(engine="siminst", cat="exploration", tech="deterministic si
 E2 = "E2 simxl: every w2c2/*.c of the working tree (main renamed w2c2_main) run in a forked child per simulated run on a tmpfs scratch tree; pthread pool under the simcore baton scheduler (preemption at sync ops, I/O calls, instrumented loads/stores), simulated CPU count/exit, fopen/fclose faults, record-and-refuse monitor on mutating libc calls; clang ASan + memory-related UBSan checks"
 CHECKS.update({
  "C09": dict(engine="simxl", cat="exploration", tech="deterministic simulation: seeded schedules of the producer/worker pool (random walk + PCT, spurious wake-ups, thread-create failures) with byte-for-byte comparison of every output set against the unpreempted single-thread run; auxiliary compile and spec-assert behaviour samples for option variants, token identity of pretty and compact output, and a syntax-only compile of the default and -m output, for every corpus and spec module",
-   text="The translator's worker pool runs under the seeded scheduler for every sampled (module, option combination, output path): termination, exit status, the exact output file-name set and byte-identity of all files with the canonical '-t 1' unpreempted run decide schedule/thread-count independence. Because option equivalence of behaviour is not a schedule property, a stratified sample of canonical outputs is additionally compiled file-by-file and spec-suite modules are built and executed under 7 option variants (pretty, -f, -g, -m, gnu-ld, threads) with their assert transcripts compared to the default build.",
+   text="The translator's worker pool runs under the seeded scheduler for every sampled (module, option combination, output path): termination, exit status, the exact output file-name set and byte-identity of all files with the canonical '-t 1' unpreempted run decide schedule/thread-count independence; under injected fopen/fclose failures and short writes of the data segment file a run may fail, but success must mean the canonical output. Because option equivalence of behaviour is not a schedule property, a stratified sample of canonical outputs is additionally compiled file-by-file and spec-suite modules are built and executed under 7 option variants (pretty, -f, -g, -m, gnu-ld, threads) with their assert transcripts compared to the default build.",
    note="interleavings are sequentially consistent; behaviour equivalence across options is sampled (not simulated): 6 modules quick / 80 thorough, stratified by data-segment shape; build-configuration variants (no pthreads, bundled getopt/libgen) must emit identical files: 10 modules quick, the whole corpus thorough", ref="5/C09"),
  "C10": dict(engine="simxl", cat="fault_enumeration", tech="deterministic simulation with torn-input fault enumeration: every run serves only the first k bytes of a valid module (k sampled, plus every section boundary; exhaustive for small modules in the thorough tier) under a seeded option/schedule swarm, ASan/UBSan-memory as oracle",
    text="Valid modules (96 seeded synthetic ones with wild UTF-8/punctuation/long names, many locals, deep nesting, duplicated bodies + 48 spec-suite modules + coremark) and their proper prefixes are translated under seeded option combinations and worker schedules, and every one of the 874 valid spec-suite modules (committed list with content hashes, not 'what the translator accepts today') is translated once per run; the run must exit 0 (valid) or exit 0 / non-zero with a diagnostic (prefix), never die on a signal, sanitizer report, assertion or hang. A thread stack size the translator asks for is honoured by the simulated pthread_create (times 8 for instrumented frames).",
    note="allocation failures are not injected (outside the statement); fopen/fclose failures, short freads and worker-thread creation failures are injected into part of the untruncated runs, under which only memory safety and termination are judged; sanitizer set = address + null/bounds/alignment/object-size/nonnull (memory operations), not arithmetic UB", ref="5/C10"),
  "C20": dict(engine="simxl", cat="exploration", tech="deterministic simulation: invariant monitor at every mutating libc call plus before/after diff of a real scratch tree, across seeded options, path shapes, near-miss decoy files, worker schedules and fopen/fclose faults",
-   text="Each run builds a scratch tree with the input (sometimes inside the output directory), a reference module and 4-13 decoy files whose names nearly match the implementation-file pattern, inside and outside the output directory; the translator may create/overwrite only out.c, its header, [sd]<10 digits>.c and 'datasegments' in the output directory and, with -c, delete only names matching the pattern - checked at the call and by diffing the tree, also after injected fopen/fclose errors. Output directories include names that are glob patterns with sibling directories they match and one-character names; a quarter of the runs use the translator built with the project's own dirname/basename/getopt/strdup (hosts without libgen/getopt).",
+   text="Each run builds a scratch tree with the input (sometimes inside the output directory), a reference module and 4-13 decoy files whose names nearly match the implementation-file pattern, inside and outside the output directory; the translator may create/overwrite only out.c, its header, [sd]<10 digits>.c and 'datasegments' in the output directory and, with -c, delete only names matching the pattern - checked at the call and by diffing the tree, also after injected fopen/fclose errors. One run in eight has the output file as a symbolic link into another directory. Output directories include names that are glob patterns with sibling directories they match and one-character names; a quarter of the runs use the translator built with the project's own dirname/basename/getopt/strdup (hosts without libgen/getopt).",
    note="calls are seen at libc entry points; a raw syscall would only be caught by the tree diff", ref="5/C20"),
 })
 
